@@ -1,10 +1,10 @@
 package sctp
 
 import (
-	"strings"
 	"context"
 	"encoding/binary"
 	"fmt"
+	"strings"
 	"time"
 
 	"github.com/pion/sctp/internal/vsched"
@@ -267,6 +267,21 @@ func hostileAlphabet(p *scripted) []hostilePkt {
 		}
 		add(fmt.Sprintf("DATA/tsn=%s/newstream", t.n), t.ignore, p.dataChunk(t.v, 999, 0, 0, 53, 3, []byte("new-stream"), 0))
 	}
+	if p.il {
+		// an ordered message identifier exactly half the number space ahead of the reader: it has no
+		// order against what is queued and must not be filed in front of it
+		mid := uint32(1 << 31)
+		if p.a != nil {
+			p.a.lock.RLock()
+			if st := p.a.streams[1]; st != nil {
+				mid = st.reassemblyQueue.nextMID + 1<<31
+			}
+			p.a.lock.RUnlock()
+		}
+		add("DATA/tsn=expected/mid-half", false, p.dataChunk(peerLast+1, 1, mid, 0, 53, 3, []byte("half-space"), 0))
+	} else {
+		add("DATA/tsn=expected/mid-half", false, p.dataChunk(peerLast+1, 1, seq+1<<15, 0, 53, 3, []byte("half-space"), 0))
+	}
 	add("DATA/empty", false, p.dataChunk(peerLast+1, 1, seq, 0, 53, 3, nil, 0))
 	add("DATA/wrongkind", false, p.dataChunk(peerLast+1, 1, seq, 0, 53, 3, []byte("wrong-kind"), map[bool]int{false: 2, true: 1}[p.il]))
 	add("DATA/wrongkind-dup", false, p.dataChunk(peerLast, 1, seq, 0, 53, 3, []byte("wrong-kind"), map[bool]int{false: 2, true: 1}[p.il]))
@@ -284,7 +299,10 @@ func hostileAlphabet(p *scripted) []hostilePkt {
 		n      string
 		v      uint32
 		ignore bool
-	}{{"behind", peerLast - 3, true}, {"at", peerLast, true}, {"+1", peerLast + 1, false}, {"+W", peerLast + W, false}, {"+2^31-1", peerLast + 1<<31 - 1, false}} {
+	}{{"behind", peerLast - 3, true}, {"at", peerLast, true}, {"+1", peerLast + 1, false}, {"+W", peerLast + W, false}, {"+2^31-1", peerLast + 1<<31 - 1, false},
+		// exactly half the number space away: neither ahead nor behind - it cannot move the
+		// cumulative point, and then it must not move any stream's cursor either
+		{"+2^31", peerLast + 1<<31, true}} {
 		for _, ss := range []struct {
 			n string
 			s []wFwdStream
@@ -293,7 +311,6 @@ func hostileAlphabet(p *scripted) []hostilePkt {
 			// earlier incarnation of the stream; two behind the reader's cursor, serially also when that is 0 or 1):
 			// the cursor must not move backwards
 			{"stale", []wFwdStream{{SID: 1, SSN: curSSN - 2, MID: curMID - 2}}}} {
-
 
 			if p.il {
 				add(fmt.Sprintf("IFWD/%s/%s", f.n, ss.n), f.ignore, chunkBytes(wIFWDTSN, 0, wIFwdVal(f.v, ss.s)))
@@ -447,7 +464,7 @@ func c03Scenario(spec *c03Spec, names *[]string) *Scenario {
 				cur0 := cursor()
 				steps0 := m.S.Steps()
 				p.inject(h.raw)
-				if strings.HasSuffix(h.name, "/stale") || (strings.Contains(h.name, "FWD/") && (strings.HasSuffix(h.name, "/none") || strings.HasSuffix(h.name, "/unknown"))) {
+				if strings.HasSuffix(h.name, "/stale") || strings.Contains(h.name, "FWD/+2^31/") || (strings.Contains(h.name, "FWD/") && (strings.HasSuffix(h.name, "/none") || strings.HasSuffix(h.name, "/unknown"))) {
 					// a skip report that names no sequence number of stream 1 ahead of its reader
 					// leaves the reader's cursor where it is
 					if cur1 := cursor(); cur0 != "" && cur1 != "" && cur1 != cur0 {
@@ -714,6 +731,9 @@ func byteMutants(p *scripted) []hostilePkt {
 }
 
 func propC03(j *Job) {
+	for _, ahead := range []uint32{5, 1<<31 - 1, 1 << 31} {
+		j.Explore(fmt.Sprintf("RH/ahead%d", ahead), reconfigFloodScenario(false, ahead), Budget{}, nil)
+	}
 	for _, il := range []bool{false, true} {
 		for _, what := range []string{"stale-fwd", "abort"} {
 			j.Explore(fmt.Sprintf("AT/il%v/%s", il, what), ackTimerRaceScenario(il, what), Budget{D: 2}, nil)
@@ -869,6 +889,66 @@ func ackTimerRaceScenario(il bool, what string) *Scenario {
 				}
 			}
 			m.Observe("%s", what)
+			c03Teardown(m, p)
+		},
+		Final: func(m *Sim, x *Exec) { generalVerdicts(m, x, true) },
+	}
+}
+
+// reconfigFloodScenario: the peer sends far more outgoing reset requests than the endpoint is
+// willing to keep (1000), each for a last TSN it cannot have reached yet - `ahead` TSNs beyond the
+// cumulative point, including exactly half the number space.  The number kept stays bounded, and
+// so does what one later DATA chunk triggers.
+func reconfigFloodScenario(il bool, ahead uint32) *Scenario {
+	return &Scenario{
+		Name:     "reconfig-flood",
+		Horizon:  120 * time.Second,
+		MaxSteps: 2000000,
+		Setup:    func(m *Sim) { m.W.delay = [2]time.Duration{time.Millisecond, time.Millisecond} },
+		Body: func(m *Sim) {
+			cfg := epCfg{NoInterleave: !il, MTU: 1191, RTOMax: 4000, InitTSN: 0xFFFFFFF5}
+			p := newScripted(m, cfg, il, false)
+			if !p.connectClient() {
+				m.Failf("e2.base", "handshake with the scripted peer failed")
+				c03Teardown(m, p)
+				return
+			}
+			p.a = m.As[0]
+			peerLast := p.a.peerLastTSN()
+			const total = 3000
+			rsn := p.tsn0
+			for sent := 0; sent < total; {
+				// 60 requests per packet (each 20 bytes)
+				var chunks [][]byte
+				for k := 0; k < 60 && sent < total; k++ {
+					v := cat(u32(rsn), u32(0), u32(peerLast+ahead), u16(uint16(100+sent%50)))
+					chunks = append(chunks, chunkBytes(wRECONFIG, 0, wTLVBytes(13, v, true)))
+					rsn++
+					sent++
+				}
+				m.W.inject(0, p.pkt(chunks...))
+			}
+			p.settle(2 * time.Second)
+			kept := len(p.a.reconfigRequests)
+			if kept > maxReconfigRequests {
+				m.Failf("hostile.unbounded", "%d outgoing reset requests for a last TSN %d ahead of the cumulative point were sent; the endpoint keeps %d of them (its own bound is %d)", total, ahead, kept, maxReconfigRequests)
+			}
+			ev0 := len(m.W.events)
+			seq := uint32(p.ssn[1])
+			if p.il {
+				seq = p.mid[1]
+			}
+			p.inject(p.pkt(p.dataChunk(p.tsn, 1, seq, 0, 53, 3, []byte("x"), 0)))
+			n := 0
+			for _, ev := range m.W.events[ev0:] {
+				if ev.Kind == "send" && ev.From == 0 {
+					n++
+				}
+			}
+			if n > maxReconfigRequests+10 {
+				m.Failf("hostile.unbounded", "one DATA chunk after the flood is answered with %d packets", n)
+			}
+			m.Observe("kept=%d answered=%d", kept, n)
 			c03Teardown(m, p)
 		},
 		Final: func(m *Sim, x *Exec) { generalVerdicts(m, x, true) },
